@@ -2363,8 +2363,12 @@ class Head(Expr):
         # ResetIndex labels the rows by their position in the partition and Split
         # draws from a random state per partition, so the rows have to be
         # selected after them
-        if isinstance(self.frame, Elemwise) and not isinstance(
-            self.frame, (ResetIndex, Split)
+        # operands with different rows are aligned on their labels: the first
+        # (last) rows of the result are not made of the first (last) rows of each
+        if (
+            isinstance(self.frame, Elemwise)
+            and not isinstance(self.frame, (ResetIndex, Split))
+            and _operands_share_rows(self.frame)
         ):
             operands = [
                 Head(op, self.n, self.operand("npartitions"))
@@ -2477,8 +2481,12 @@ class Tail(Expr):
 
     def _simplify_down(self):
         # See Head._simplify_down
-        if isinstance(self.frame, Elemwise) and not isinstance(
-            self.frame, (ResetIndex, Split)
+        # operands with different rows are aligned on their labels: the first
+        # (last) rows of the result are not made of the first (last) rows of each
+        if (
+            isinstance(self.frame, Elemwise)
+            and not isinstance(self.frame, (ResetIndex, Split))
+            and _operands_share_rows(self.frame)
         ):
             operands = [
                 Tail(op, self.n)
